@@ -26,6 +26,20 @@ SkeletonInstances(dummy) == { [n |-> 6, links |-> s] : s \in { x \in InjSeqs(Ske
 
 AppendixC6 == { [n |-> 6, links |-> << <<4, 2>>, <<1, 2>>, <<5, 3>>, <<1, 6>>, <<1, 5>> >>] }
 
+\* The same family as AllInstances without ever building the set: the instance is grown link by link (nxt = 0 marks
+\* the building phase; any unused pair may be the next-closest one), then the algorithm runs on it.
+BuildInit == /\ inst = [n |-> NPart, links |-> <<>>]
+             /\ tr = <<>> /\ done = {} /\ nxt = 0 /\ cc = 1 /\ err = "" /\ log = <<>>
+BuildNext == \/ /\ nxt = 0
+                /\ Len(inst.links) < MaxLinks
+                /\ \E e \in Pairs(NPart) \ RangeOf(inst.links) : inst' = [inst EXCEPT !.links = Append(@, e)]
+                /\ UNCHANGED <<tr, done, nxt, cc, err, log>>
+             \/ /\ nxt = 0
+                /\ nxt' = 1
+                /\ UNCHANGED <<inst, tr, done, cc, err, log>>
+             \/ (nxt > 0 /\ ANext)
+BuildSpec == BuildInit /\ [][BuildNext]_vars
+
 FamilyInstances == CASE Family = "all"        -> AllInstances(0)
                      [] Family = "skeleton"   -> SkeletonInstances(0)
                      [] Family = "appendixC6" -> AppendixC6
